@@ -1047,6 +1047,11 @@ class UpnpXmlSerializer:
             ET.SubElement(value_range_el, "maximum").text = state_variable.coerce_upnp(
                 state_variable.max_value
             )
+            # pylint: disable=protected-access
+            type_info = state_variable._state_variable_info.type_info
+            step = type_info.allowed_value_range.get("step")
+            if step is not None:
+                ET.SubElement(value_range_el, "step").text = step
 
         if state_variable.default_value is not None:
             ET.SubElement(
